@@ -58,7 +58,7 @@ func readImports(r Reader, cat Catalog) ([]SharedSymbolTable, error) {
 			return nil, err
 		}
 
-		if val.LocalSID == 3 {
+		if val != nil && (val.LocalSID == 3 || (val.Text != nil && *val.Text == "$ion_symbol_table")) {
 			// Special case that imports the current local symbol table.
 			if r.SymbolTable() == nil || r.SymbolTable() == V1SystemSymbolTable {
 				return nil, nil
@@ -121,7 +121,9 @@ func readImport(r Reader, cat Catalog) (SharedSymbolTable, error) {
 				if err != nil {
 					return nil, err
 				}
-				name = *val
+				if val != nil {
+					name = *val
+				}
 			}
 		case "version":
 			if r.Type() == IntType {
@@ -129,7 +131,9 @@ func readImport(r Reader, cat Catalog) (SharedSymbolTable, error) {
 				if err != nil {
 					return nil, err
 				}
-				version = *val
+				if val != nil {
+					version = *val
+				}
 			}
 		case "max_id":
 			if r.Type() == IntType {
@@ -187,7 +191,7 @@ func readImport(r Reader, cat Catalog) (SharedSymbolTable, error) {
 
 // ReadSymbols reads the symbols from a symbol table.
 func readSymbols(r Reader) ([]string, error) {
-	if r.Type() != ListType {
+	if r.Type() != ListType || r.IsNull() {
 		return nil, nil
 	}
 	if err := r.StepIn(); err != nil {
